@@ -32,7 +32,7 @@ def base_env(tmp):
     return {"QA_TLA_LIBRARY": tmp}
 
 
-def judge(module, observations, cfg=None, env=None, timeout=900, workers=2, chunk=20000, parallel=6):
+def judge(module, observations, cfg=None, env=None, timeout=3000, workers=2, chunk=20000, parallel=6):
     """Run specs/<module>.tla over the observations (several TLC processes side by side, one chunk
     each). Returns Verdict."""
     from concurrent.futures import ThreadPoolExecutor
